@@ -76,6 +76,9 @@ CHECKS = {
  'C12': dict(level='exploration', ref='3/C12', technique='three-stage differential execution monitor: the gcc-built compiler, the compiler it builds and the compiler that one builds are run on the same corpus x option sets through the same cwd and argv[0]; exit status, stdout, stderr and output bytes compared; determinism monitor (ASLR off / padded environment / shifted clock) and valgrind memcheck on stage-2 runs',
              text='Every stage is hard-linked in turn into one job directory so that cwd and argv[0] (which reach the output through DW_AT_comp_dir and the include path) are identical, and the clock is pinned by a preloaded time(). Corpus: the 9 compiler sources, all bundled tests, generated control-flow / scope / macro / conditional programs from the other properties and invalid mutants whose diagnostics must agree too. Stage-3 objects of the compiler sources must equal stage-2 objects byte for byte.',
              note='only divergences on the generated corpus are visible; valid-program generators are those of C03/C09/C10, mutants those of C13'),
+ 'C15': dict(level='exploration', ref='3/C15', technique='symbol-table monitor (readelf of every produced object compared entry by entry with the gcc -O0 and clang -O0 objects and with a reachability model for static inline functions) plus differential execution of multi-unit programs built in 8 link configurations against gcc and clang builds',
+             text='Units are generated with every legal declaration sequence per identifier (extern/tentative/initialised/static/thread-local/incomplete-array repeats, _Alignas), functions of every linkage flavour (static, extern, static inline, extern inline, inline + extern redeclaration) and a random reference graph (calls, address-taking, static-local and file-scope initialisers, cycles); x {-fcommon,-fno-common} x {PIC, non-PIC}. Link sets of 2-4 units + main share objects, TLS, header inline functions with static locals and string literals; built as default, -fno-common, -fPIC, shared library with PIC and non-PIC main, -static, and mixed gcc/chibicc objects; outputs print values, cross-unit address identity, alignment and per-thread TLS and must equal the reference builds.',
+             note='symbols of static locals/literals (dot or .L names) are observed only through behaviour; function symbol sizes not compared; gcc/clang trusted as references (entry must equal either)'),
 }
 REASON_WIP = 'check not built yet in this session (planned, see DESIGN.md section 3); will be claimed once its monitor is silent on the unchanged tree'
 
